@@ -93,6 +93,13 @@ def gen_docstring(draw: Any, b: Builder, indent: int, kind: str, params: List[st
                     fields.append({'tag': 'param', 'arg': p, 'lines': [b.tok('w')] + ([b.tok('w')] if draw(st.booleans()) else [])})
         if draw(st.integers(0, 2)) == 0:
             fields.append({'tag': 'note', 'arg': None, 'lines': [b.tok('w')] + ([b.tok('w')] if draw(st.booleans()) else [])})
+        if kind == 'class' and params:
+            # the class docstring gives the type of a variable assigned in the class body, and may describe it too
+            for v in params:
+                if draw(st.booleans()):
+                    if draw(st.booleans()):
+                        fields.append({'tag': draw(st.sampled_from(['ivar', 'cvar', 'var'])), 'arg': v, 'lines': [b.tok('w')]})
+                    fields.append({'tag': 'type', 'arg': v, 'lines': [b.tok('w')] + ([b.tok('w')] if draw(st.booleans()) else [])})
     # ---- plant problems
     nprob = draw(st.sampled_from([0, 0, 1, 1, 2, 3])) if allow_problems else 0
     planted: List[Dict[str, Any]] = []
@@ -280,7 +287,10 @@ def st_module():
                 gen_docstring(draw, b, 0, 'attr', [], not clean)
             else:
                 b.add('class C%d:' % oi)
-                gen_docstring(draw, b, 4, 'class', [], not clean)
+                tvars = draw(st.sampled_from([[], [], ['tv'], ['tv', 'tw']]))
+                gen_docstring(draw, b, 4, 'class', tvars, not clean)
+                for tv in tvars:
+                    b.add('    %s = 2' % tv)
                 b.add('    def m(self, a):')
                 gen_docstring(draw, b, 8, 'method', ['a'], not clean)
                 b.add('        pass')
